@@ -10,6 +10,7 @@ nothing returns marginal(Y).
 Not decided: floating-point accuracy of the inverse.
 """
 from .common import *
+from .common import lossy_casts, decide_formula
 from .. import mnf as MN
 from ..mnf import MNF, rB, rV, rA, rinv, add, mul, strip_wrappers
 
@@ -25,6 +26,52 @@ def make_point(rnd):
     return ME.Point(p, {C: ME.rand_spd(rnd, p), MU: ME.rand_vec(rnd, p), Px: ME.rand_vec(rnd, 2)}, {PY: [3, 0], PX: [4, 1]})
 
 
+def path_mentions_content(path, idx_param):
+    """does the path condition constrain the *content / order* of an index list (not merely its length)?"""
+    for c, pol in path:
+        if pol is not True:
+            continue          # fall-through after a guard: not a special case
+        t = strip_wrappers(c)
+        # remove len(param) occurrences, then look for the bare parameter
+        def rec(u):
+            if u == ("ext", "len", (idx_param,), ()):
+                return False
+            if u == idx_param:
+                return True
+            return isinstance(u, tuple) and any(rec(v) for v in u if isinstance(v, tuple))
+        if rec(t):
+            return True
+    return False
+
+
+def check_construction(rep, f, c, M, what, ref_mean, ref_cov):
+    """one `NormalDistribution(mean, covariance)` site: formulas must equal the references; a special-case path
+    may only deviate if its condition looks at the content of the index lists (then it is not decided here)"""
+    full = any(strip_wrappers(cond) in (("cmp", "==", ("ext", "len", (PX,), ()), ("self", "p")), ("cmp", "==", ("self", "p"), ("ext", "len", (PX,), ())))
+               and pol is True for cond, pol in c.path)
+
+    def point(rnd):
+        from .. import mnf_eval as ME
+        p = 5
+        X = [3, 0, 4, 1, 2] if full else [4, 1]
+        return ME.Point(p, {C: ME.rand_spd(rnd, p), MU: ME.rand_vec(rnd, p), Px: ME.rand_vec(rnd, len(X))}, {PY: [3, 0], PX: X})
+    for name, term, ref in (("mean", c.args[0], ref_mean), ("covariance", c.args[1], ref_cov)):
+        w = fwhere(f, c.node, construct="%s %s" % (what, name))
+        rule = "FORMULA.%s.%s" % (what, name)
+        for cast, d in lossy_casts(term):
+            rep.bad("DTYPE.%s" % what, w, "values entering the %s %s are cast to %s (%s): fractional conditioning values / means are truncated silently" % (
+                what, name, fmt(d), fmt(cast)[:80]))
+        try:
+            got = M.nf(term)
+        except Inconclusive as e:
+            rep.unk(rule, w, "formula left the matrix fragment: %s" % e.why)
+            continue
+        if MN.key(got) != MN.key(ref) and (path_mentions_content(c.path, PX) or path_mentions_content(c.path, PY)):
+            rep.unk(rule, w, "special-case path whose condition inspects the index lists themselves: equivalence to %s under that condition is not decided" % MN.show(ref)[:80])
+            continue
+        decide_formula(rep, rule, w, got, ref, "%s %s" % (what, name), point)
+
+
 def ctor_calls(S, qname):
     return [c for c in S.select("call", qname=qname) if c.target == ND + "__init__"]
 
@@ -37,19 +84,12 @@ def run(prog, rep, tier):
     S = Sym(prog, inline=inl)
     run_function(S, f)
     cs = [c for c in ctor_calls(S, f.qname)]
-    if len(cs) != 1 or len(cs[0].args) < 2:
-        raise Inconclusive("conditional: expected exactly one NormalDistribution(mean, covariance) construction", f.node)
-    c = cs[0]
+    if not cs or any(len(c.args) < 2 for c in cs):
+        raise Inconclusive("conditional: no NormalDistribution(mean, covariance) construction found", f.node)
     ref_mean = add(rV(MU, PY), mul(mul(rB(C, PY, PX), rinv(rB(C, PX, PX))), add(rA(Px), rV(MU, PX), -1)))
     ref_cov = add(rB(C, PY, PY), mul(mul(rB(C, PY, PX), rinv(rB(C, PX, PX))), rB(C, PX, PY)), -1)
-    for name, term, ref in (("mean", c.args[0], ref_mean), ("covariance", c.args[1], ref_cov)):
-        try:
-            got = M.nf(term)
-        except Inconclusive as e:
-            rep.unk("FORMULA.conditional." + name, fwhere(f, c.node), "formula left the matrix fragment: %s" % e.why)
-            continue
-        decide_formula(rep, "FORMULA.conditional." + name, fwhere(f, c.node, construct="conditional %s" % name), got, ref,
-                       "conditional " + name, make_point)
+    for c in cs:
+        check_construction(rep, f, c, M, "conditional", ref_mean, ref_cov)
     rep.tables["conditional"] = {"mean": MN.show(ref_mean), "covariance": MN.show(ref_cov)}
     # guards
     raises = [r for r in S.select("raise", qname=f.qname) if r.exctype == "ValueError"]
@@ -94,14 +134,10 @@ def run(prog, rep, tier):
     S2 = Sym(prog, inline=inl)
     run_function(S2, f2)
     cs = ctor_calls(S2, f2.qname)
-    if len(cs) != 1 or len(cs[0].args) < 2:
-        raise Inconclusive("marginal: expected one NormalDistribution(mean, covariance) construction", f2.node)
-    for name, term, ref in (("mean", cs[0].args[0], rV(MU, PX)), ("covariance", cs[0].args[1], rB(C, PX, PX))):
-        try:
-            got = M.nf(term)
-            decide_formula(rep, "FORMULA.marginal." + name, fwhere(f2, cs[0].node, construct="marginal " + name), got, ref, "marginal " + name, make_point)
-        except Inconclusive as e:
-            rep.unk("FORMULA.marginal." + name, fwhere(f2, cs[0].node), "left the matrix fragment: %s" % e.why)
+    if not cs or any(len(c.args) < 2 for c in cs):
+        raise Inconclusive("marginal: no NormalDistribution(mean, covariance) construction found", f2.node)
+    for c in cs:
+        check_construction(rep, f2, c, M, "marginal", rV(MU, PX), rB(C, PX, PX))
     # the sibling helper the blocks go through
     f3 = need(prog, U + "matrix_block")
     S3 = Sym(prog)
